@@ -44,7 +44,7 @@ struct KAmg {
     typedef amgcl::make_solver<AMG, SOLVER> Obj;
     static const char *name() { return "make_solver<amg>"; }
     static const bool has_apply = true, has_papply = true, has_rebuild = true, projects_first = false;
-    static Sys gen_sys(Tape &t) { return plain_sys(t, 48, true); }
+    static Sys gen_sys(Tape &t) { return plain_sys(t, 32, true); }
     static void gen_cfg(Tape &t, const Sys &s, Cfg &c) { c.solver = gen_solver(t, s.n, true, &c, &c.text); c.text += " + "; c.amg = gen_amg(t, false, &c, &c.text); }
     static std::shared_ptr<Obj> make(const Sys &s, const Cfg &c) { ptree p; p.put_child("solver", c.solver); p.put_child("precond", c.amg); return std::make_shared<Obj>(TUP(s.A), p); }
     static std::tuple<size_t, double> solve(const Obj &o, const vec &f, vec &x) { return o(f, x); }
@@ -58,7 +58,7 @@ struct KRelax {
     typedef amgcl::make_solver<RELAX, SOLVER> Obj;
     static const char *name() { return "make_solver<as_preconditioner>"; }
     static const bool has_apply = true, has_papply = true, has_rebuild = false, projects_first = false;
-    static Sys gen_sys(Tape &t) { return plain_sys(t, 48, true); }
+    static Sys gen_sys(Tape &t) { return plain_sys(t, 32, true); }
     static void gen_cfg(Tape &t, const Sys &s, Cfg &c) { c.solver = gen_solver(t, s.n, true, &c, &c.text); c.relax = gen_relax(t, false, &c.relaxation); c.text += " + relax(" + c.relaxation + ")"; }
     static std::shared_ptr<Obj> make(const Sys &s, const Cfg &c) { ptree p; p.put_child("solver", c.solver); p.put_child("precond", c.relax); return std::make_shared<Obj>(TUP(s.A), p); }
     static std::tuple<size_t, double> solve(const Obj &o, const vec &f, vec &x) { return o(f, x); }
@@ -72,7 +72,7 @@ struct KNested {
     typedef amgcl::make_solver<amgcl::make_solver<AMG, SOLVER>, SOLVER> Obj;
     static const char *name() { return "make_solver<make_solver<amg>>"; }
     static const bool has_apply = true, has_papply = true, has_rebuild = true, projects_first = false;
-    static Sys gen_sys(Tape &t) { return plain_sys(t, 40, true); }
+    static Sys gen_sys(Tape &t) { return plain_sys(t, 28, true); }
     static void gen_cfg(Tape &t, const Sys &s, Cfg &c) {
         c.solver = gen_solver(t, s.n, true, &c, &c.text); c.text += " + inner ";
         c.inner1 = gen_solver(t, s.n, false, nullptr, &c.text); c.text += " + ";
@@ -94,7 +94,7 @@ struct KDeflated {
     static const char *name() { return "deflated_solver<amg>"; }
     static const bool has_apply = true, has_papply = true, has_rebuild = true, projects_first = true;
     static Sys gen_sys(Tape &t) {
-        Sys s = plain_sys(t, 40, false); // SPD: Z^T A Z is nonsingular for every full-rank Z
+        Sys s = plain_sys(t, 28, false); // SPD: Z^T A Z is nonsingular for every full-rank Z
         s.nvec = static_cast<int>(t.u(1, std::min<ptrdiff_t>(3, s.n)));
         s.Z.assign(static_cast<size_t>(s.nvec) * s.n, 0.0);
         for (int j = 0; j < s.nvec; ++j) for (ptrdiff_t i = s.n * j / s.nvec; i < s.n * (j + 1) / s.nvec; ++i) s.Z[j * s.n + i] = 1.0;
@@ -128,7 +128,7 @@ struct KCpr {
     typedef amgcl::make_solver<amgcl::preconditioner::cpr<AMG, RELAX>, SOLVER> Obj;
     static const char *name() { return "make_solver<cpr>"; }
     static const bool has_apply = true, has_papply = true, has_rebuild = false, projects_first = false;
-    static Sys gen_sys(Tape &t) { return block_sys(t, 20); }
+    static Sys gen_sys(Tape &t) { return block_sys(t, 12); }
     static void gen_cfg(Tape &t, const Sys &s, Cfg &c) {
         c.solver = gen_solver(t, s.n, true, &c, &c.text); c.text += " + cpr(";
         c.amg = gen_amg(t, false, &c, &c.text);
@@ -153,7 +153,7 @@ struct KSchur {
     static Sys gen_sys(Tape &t) {
         // K = [Kuu Kup; -Kup^T C]: Kuu, C SPD M-matrices => positive definite (non-symmetric), Schur complement SPD
         Sys s;
-        s.nu = t.u(2, 24); s.np = t.u(1, 10); s.n = s.nu + s.np;
+        s.nu = t.u(2, 12); s.np = t.u(1, 6); s.n = s.nu + s.np;
         bool interleaved = t.b();
         s.pmask.assign(s.n, 0);
         if (!interleaved) for (ptrdiff_t i = s.nu; i < s.n; ++i) s.pmask[i] = 1;
@@ -203,7 +203,7 @@ struct KBlock {
     typedef amgcl::make_block_solver<amgcl::amg<BB, amgcl::runtime::coarsening::wrapper, amgcl::runtime::relaxation::wrapper>, amgcl::runtime::solver::wrapper<BB>> Obj;
     static const char *name() { return "make_block_solver<amg,2x2>"; }
     static const bool has_apply = false, has_papply = false, has_rebuild = false, projects_first = false;
-    static Sys gen_sys(Tape &t) { return block_sys(t, 20); }
+    static Sys gen_sys(Tape &t) { return block_sys(t, 12); }
     static void gen_cfg(Tape &t, const Sys &s, Cfg &c) { c.solver = gen_solver(t, s.n / 2, true, &c, &c.text); c.text += " + "; c.amg = gen_amg(t, true, &c, &c.text); }
     static std::shared_ptr<Obj> make(const Sys &s, const Cfg &c) { ptree p; p.put_child("solver", c.solver); p.put_child("precond", c.amg); return std::make_shared<Obj>(TUP(s.A), p); }
     static std::tuple<size_t, double> solve(const Obj &o, const vec &f, vec &x) { return o(f, x); }
